@@ -1,5 +1,5 @@
-(* C37 — Index events replay to the indexed state (rune half; the inscription half is tied by
-   the harness oracle only, see props/C37.json).
+(* C37 — Index events replay to the indexed state. Rune half below; inscription half at the end
+   (C37_inscription_same_states, C37_inscription_events_replay; model Index/InscrEvents.v).
    Model: Index/Events.v = the rune indexer model of Index/Runes.v returning, next to the state,
    the RuneMinted / RuneEtched / RuneTransferred / RuneBurned events in emission order.
    [replay_chain] folds the events block by block and transaction by transaction into a [view]
@@ -7,6 +7,7 @@
    chain is an input of the replay: the outputs a transaction spends are dropped. *)
 From OrdV Require Import Base.Prelude Index.Runes Index.Events Proofs.Runes_proofs Proofs.Runes_alloc
   Proofs.Runes_supply Proofs.Events_proofs.
+From OrdV Require Generated Index.Inscr Index.InscrEvents Proofs.Inscr_c04 Proofs.Inscr_events_proofs.
 
 (* The event-emitting run is the plain run plus events: same states, same failures. *)
 Theorem C37_same_states : forall first bs height st,
@@ -60,6 +61,61 @@ Example C37_nonvacuous :
       getd (1, 0) (v_mints v1) = 1 /\ getd (1, 0) (v_burned v1) = 4 /\ v_bal v1 = [((2, 0), [((1, 0), 11)])].
 Proof. vm_compute. eexists. split; [reflexivity|]. split; [reflexivity|]. eexists; eexists. repeat split. Qed.
 
+(* ---- Inscription half.
+   Model: Index/InscrEvents.v = the inscription indexer model of Index/Inscr.v (C03-C07) returning, next to the
+   state, the InscriptionCreated / InscriptionTransferred events of update_inscription_location in emission order,
+   block by block. [Inscr_events_proofs.replay] folds the events into a view: per sequence number a record
+   (inscription id, location, charms, parent ids); Created writes the record (location None when unbound),
+   Transferred overwrites the record's location with new_location. *)
+
+(* Same states, same failures as the plain model of C03-C07. *)
+Theorem C37_inscription_same_states : forall cfg c h st,
+  Inscr_events_proofs.rfst (InscrEvents.index_chain_ev cfg h c st) = Inscr.index_chain cfg h c st.
+Proof. exact Inscr_events_proofs.index_chain_ev_fst. Qed.
+
+(* For every chain the model indexes from the empty index, with pairwise distinct non-zero txids and every block =
+   one coinbase followed by non-coinbase transactions (Inscr_c04.chain_ok), any configuration: the replayed view v has
+     - a record for sequence number s iff the index has an entry for s;
+     - the record's id = the entry's id; the record's charms = the entry's charms, except that the entry may in
+       addition carry Burned (set when the inscription later moves onto an OP_RETURN output - no event says so);
+       the record's parent ids = the ids of the entries named by the entry's parents, in order;
+     - wherever the utxo table holds (s, offset) under an outpoint, the record's location is that satpoint
+       (None under the unbound outpoint);
+     - and every entry is held somewhere, so every record's location is the inscription's satpoint.
+   Not claimed: old_location of Transferred and the block height / txid-less fields are not used by the replay. *)
+Theorem C37_inscription_events_replay : forall cfg c st evs,
+  Inscr_c04.chain_ok c -> InscrEvents.index_chain_ev cfg 0 c Inscr.empty_state = Ok (st, evs) ->
+  let v := Inscr_events_proofs.replay [] (concat evs) in
+  (forall s, Inscr.tget N.eqb s v = None <-> Inscr.tget N.eqb s (Inscr.s_entries st) = None) /\
+  (forall s id loc ch ps, Inscr.tget N.eqb s v = Some (id, loc, ch, ps) ->
+     exists e, Inscr.tget N.eqb s (Inscr.s_entries st) = Some e /\ Inscr.i_id e = id /\
+       (Inscr.i_charms e = ch \/ Inscr.i_charms e = N.lor ch (Inscr.flag Generated.CHARM_BURNED)) /\
+       Forall2 (fun pid p => exists ep, Inscr.tget N.eqb p (Inscr.s_entries st) = Some ep /\ Inscr.i_id ep = pid)
+               ps (Inscr.i_parents e)) /\
+  (forall op u s off, Inscr.tget Inscr.pair_eqb op (Inscr.s_utxo st) = Some u -> In (s, off) (Inscr.u_insc u) ->
+     exists id ch ps, Inscr.tget N.eqb s v = Some (id, Inscr_events_proofs.vloc op off, ch, ps)) /\
+  (forall s e, Inscr.tget N.eqb s (Inscr.s_entries st) = Some e ->
+     exists op u off id ch ps, Inscr.tget Inscr.pair_eqb op (Inscr.s_utxo st) = Some u /\
+       In (s, off) (Inscr.u_insc u) /\
+       Inscr.tget N.eqb s v = Some (id, Inscr_events_proofs.vloc op off, ch, ps)).
+Proof. exact Inscr_events_proofs.inscription_events_replay. Qed.
+
+(* Non-vacuity (inscription half): reveal at (4,0); move to (6,0) + child naming it; both moved onto an OP_RETURN
+   output: 5 events, the replayed view has both records at (8,0,0); the entries carry Burned in addition. *)
+Example C37_inscription_nonvacuous :
+  Inscr_c04.chain_ok Inscr_events_proofs.ev_chain /\
+  exists st evs, InscrEvents.index_chain_ev (Inscr.cfg_of 0 false) 0 Inscr_events_proofs.ev_chain Inscr.empty_state = Ok (st, evs) /\
+    length (concat evs) = 5%nat /\
+    Inscr_events_proofs.replay [] (concat evs) =
+      [(0, (4, 0, Some (8, 0, 0), 0, [])); (1, (6, 0, Some (8, 0, 0), 130, [(4, 0)]))] /\
+    map (fun x => Inscr.i_charms (snd x)) (Inscr.s_entries st) = [4096; 4226].
+Proof.
+  destruct Inscr_events_proofs.events_replay_nonvacuous as (A & st & evs & B & C & D & E).
+  split; [exact A|]. exists st, evs. split; [exact B|]. split; [rewrite C; reflexivity|]. split; [exact D|exact E].
+Qed.
+
 Print Assumptions C37_same_states.
 Print Assumptions C37_tx_replay.
 Print Assumptions C37_rune_events_replay.
+Print Assumptions C37_inscription_same_states.
+Print Assumptions C37_inscription_events_replay.
